@@ -107,3 +107,33 @@ package doltdb
 //@   ensures  verif_ghost.nCombined - old(verif_ghost.nCombined) <= 1
 //@   ensures  result1 == nil ==> verif_ghost.nCombined == old(verif_ghost.nCombined) + 1
 //@   also_modifies verif_ghost.nMut, verif_ghost.nCombined
+
+// ---- auto-increment sequence state (C28): the sequential core
+
+// Next hands out the current value and advances by exactly one; at the end of the range it hands out nothing new
+//@ func (AutoIncrementState).Next
+//@   property C28
+//@   nopanic
+//@   modifies nothing
+//@   ensures  result3 == nil
+//@   ensures  uint64(s) != 18446744073709551615 ==> result1 && result0 == uint64(s) && uint64(result2) == uint64(s)+1
+//@   ensures  uint64(s) == 18446744073709551615 ==> !result1 && result2 == s
+//@ func (AutoIncrementState).GreaterThan
+//@   property C28
+//@   nopanic
+//@   modifies nothing
+//@   ensures  result == (uint64(s) > uint64(other))
+//@ func (AutoIncrementState).Merge
+//@   property C28
+//@   nopanic
+//@   modifies nothing
+//@   ensures  uint64(result) >= uint64(s) && uint64(result) >= uint64(other) && (result == s || result == other)
+//@ func (AutoIncrementState).CurrentValue
+//@   property C28
+//@   nopanic
+//@   modifies nothing
+//@   ensures  result == uint64(s)
+
+// successive generated values are strictly increasing and never repeat (until the range is exhausted)
+//@ lemma verif_lemma_c28_generated_values_increase
+//@   property C28
